@@ -56,6 +56,19 @@ def make_function(a, b, N, K):
     return F()
 
 
+def scaled_function(f, scale):
+    """the same function with all values multiplied by `scale`"""
+    from sparseSpACE.Function import Function
+
+    class Scaled(Function):
+        def output_length(self):
+            return f.output_length()
+
+        def eval(self, c):
+            return scale * np.asarray(f.eval(c), dtype=float)
+    return Scaled()
+
+
 def snap_ints(vals, tol=1e-7):
     out = []
     for v in np.asarray(vals, dtype=float).flatten():
@@ -403,6 +416,7 @@ def reused_grid_sequences(cx, rng, trees, M, boxes, nseq):
                     with impl.quiet():
                         g = cls(a=a, b=b, boundary=bnd, modified_basis=mod, p=p)
                     cur = [list(rng.choice([t for t in trees if len(t) >= 2])) for _ in range(D)]
+                    partner = None
                     for step in range(5):
                         mode = rng.choice(['new', 'relevel', 'relevel', 'same', 'one-dim'])
                         if mode == 'new' or step == 0:
@@ -426,9 +440,20 @@ def reused_grid_sequences(cx, rng, trees, M, boxes, nseq):
                                 g.set_grid(own_x, own_l)
                             else:
                                 g.set_grid([list(x) for x in xs], [list(l) for l in ls])
-                            f = make_function(a, b, N, 0)
+                            # the function values have the magnitude `scale` (1, 1e-10 or 1e8 per sequence): every comparison is relative to it
+                            scale = [1.0, 1e-10, 1e8][q % 3]
+                            f = scaled_function(make_function(a, b, N, 0), scale)
                             g.integrate(f, [1] * D, a, b)
                             cg = ComponentGridInfo([1] * D, 1)
+                            if step % 2 == 1:
+                                # a second grid object of the same class is used in between (another tree, another function): the two objects
+                                # must not share anything
+                                if partner is None:
+                                    partner = cls(a=a, b=b, boundary=bnd, modified_basis=mod, p=p)
+                                tp = [list(rng.choice([t for t in trees if len(t) >= 2])) for _ in range(D)]
+                                latp = [[0] + sorted(t) + [N] for t in tp]
+                                partner.set_grid([[float(a[d] + (b[d] - a[d]) * v / N) for v in latp[d]] for d in range(D)], [[lev(v, M) for v in latp[d]] for d in range(D)])
+                                partner.integrate(scaled_function(make_function(a, b, N, 0), -3.5 * scale), [1] * D, a, b)
                             pts = [tuple(float(v) for v in qq) for qq in g.getPoints()]
                             vin = np.array([f.eval(qq) for qq in pts])
                             back = np.asarray(g.interpolate(pts, cg), dtype=float)
@@ -437,7 +462,7 @@ def reused_grid_sequences(cx, rng, trees, M, boxes, nseq):
                         rep.count(1, key=json.dumps(['reused', kind, p, bnd, mod, D, q, step]))
                         sig = {'kind': kind, 'api': 'Global%sGrid' % ('Lagrange' if kind == 'lagrange' else 'BSpline'), 'boundary': bnd, 'modified': mod, 'dim': D, 'reused_object': True}
                         for nm, bk in (('interpolate', back), ('interpolate_grid', back_grid)):
-                            if bk.shape != vin.shape or np.abs(bk - vin).max() > 1e-7 * max(1.0, np.abs(vin).max()):
+                            if bk.shape != vin.shape or np.abs(bk - vin).max() > 1e-7 * scale * max(1.0, np.abs(vin).max() / scale):
                                 err = float(np.abs(bk - vin).max()) if bk.shape == vin.shape else None
                                 rep.violation('C10_RoundTrip', dict(sig, call=nm), {'kind': kind, 'p': p, 'boundary': bnd, 'modified': mod, 'box': [a.tolist(), b.tolist()], 'history': hist, 'max_error': err},
                                               what='grid object re-used along %d trees (last step: %s): %s at the grid points differs from the nodal values by %s (%s p=%d boundary=%s)' % (len(hist), mode, nm, err, kind, p, bnd))
